@@ -48,7 +48,9 @@ template<class I>
 struct Machine {
 	typedef LabeledData<I, unsigned int> DS;
 	std::vector<DS> R;
-	Machine() : R(4) {}
+	CVFolds<DS> F;            // sharing stream: the last fold object (its dataset is handle 6)
+	DataView<DS> V;           // sharing stream: the last view (its dataset is handle 7)
+	Machine() : R(6) {}
 
 	static std::string shapeStr(Shape const& s) { std::ostringstream o; o << s; return o.str(); }
 
@@ -157,7 +159,70 @@ struct Machine {
 			o << " rsecond="; for (std::size_t i = 0; i != ri.second.size(); ++i) { if (i) o << ","; o << ri.second[i]; } }
 		else if (cmd == "CT") { int r = a[0]; markShapes(r, a[1]); auto f = createCVBatch(R[r], a[1]); dumpCV(o, f, r); }
 		else if (cmd == "CR") { int r = a[0]; markShapes(r, a[1]); R[r].makeIndependent(); auto f = createCVIID(R[r], a[1], a[2]); dumpCV(o, f, r); }
+		else if (cmd.size() == 2 && cmd[0] == 'X') { execShared(cmd, a, o); }
 		else o << " ?";
+	}
+
+	// ---------------- sharing stream: no makeIndependent() by the harness, every handle observed after every operation ----------------
+	DS const& handle(int h) { return h < 6 ? R[h] : (h == 6 ? const_cast<CVFolds<DS> const&>(F).dataset() : V.dataset()); }
+	void dumpAll(std::ostream& o) {
+		for (int h = 0; h != 8; ++h) {
+			DS const& d = handle(h);
+			o << " H" << h << "="; dumpData(o, d);
+			o << " hs" << h << "=" << shapeStr(d.inputShape()) << " hl" << h << "=" << shapeStr(d.labelShape());
+		}
+		// Data::operator== : "two containers compare equal if they share the same data" (pointer equality of the batch lists)
+		std::ostringstream ei, el;
+		for (int i = 0; i != 8; ++i) for (int j = i + 1; j != 8; ++j) {
+			Data<I>& xi = const_cast<DS&>(handle(i)).inputs(); Data<I> const& yi = handle(j).inputs();
+			Data<unsigned int>& xl = const_cast<DS&>(handle(i)).labels(); Data<unsigned int> const& yl = handle(j).labels();
+			if (xi == yi) ei << i << j << ",";
+			if (xl == yl) el << i << j << ",";
+		}
+		o << " eqi=" << (ei.str().empty() ? "-" : ei.str()) << " eql=" << (el.str().empty() ? "-" : el.str());
+	}
+	void execShared(std::string const& cmd, std::vector<long> const& a, std::ostream& o) {
+		char c = cmd[1];
+		if (c == 'N') {
+			int r = a[0]; std::size_t n = a[1], m = a[2];
+			std::vector<I> in; std::vector<unsigned int> lab;
+			for (std::size_t i = 0; i != n; ++i) lab.push_back((unsigned)a[3 + i]);
+			for (std::size_t i = 0; i != n; ++i) in.push_back(Enc<I>::make(a[3 + n + i]));
+			R[r] = createLabeledDataFromRange(in, lab, m);
+		}
+		else if (c == 'C') { R[a[1]] = R[a[0]]; }
+		else if (c == 'Z') { R[a[0]] = DS(); }
+		else if (c == 'I') { std::vector<std::size_t> s(a.begin() + 2, a.end()); DS t = R[a[0]].indexedSubset(s); R[a[1]] = t; }
+		else if (c == 'K') { // the three-argument overload writes into the two target containers directly
+			int r = a[0], q = a[1], t = a[2]; std::vector<std::size_t> s(a.begin() + 3, a.end());
+			R[r].inputs().indexedSubset(s, R[q].inputs(), R[t].inputs());
+			R[r].labels().indexedSubset(s, R[q].labels(), R[t].labels());
+		}
+		else if (c == 'L') { DS t = R[a[0]].splice(a[2]); R[a[1]] = t; }
+		else if (c == 'A') { R[a[0]].append(R[a[1]]); }
+		else if (c == 'B') { typename DS::const_batch_reference b = const_cast<DS const&>(R[a[1]]).batch(a[2]); R[a[0]].push_back(b); }
+		else if (c == 'W') { auto e = R[a[0]].element(a[1]); e.input = Enc<I>::make(a[2]); e.label = (unsigned)a[3]; }
+		else if (c == 'V') { auto b = R[a[0]].batch(a[1]); getBatchElement(b.input, a[2]) = Enc<I>::make(a[3]); getBatchElement(b.label, a[2]) = (unsigned)a[4]; }
+		else if (c == 'M') { R[a[0]].makeIndependent(); }
+		else if (c == 'P') { std::vector<std::size_t> s(a.begin() + 1, a.end()); R[a[0]].repartition(s); }
+		else if (c == 'S') { R[a[0]].splitBatch(a[1], a[2]); }
+		else if (c == 'O') { std::vector<std::size_t> s(a.begin() + 1, a.end()); R[a[0]].reorderElements(s); }
+		else if (c == 'G') { std::vector<std::size_t> s(a.begin() + 3, a.end()); F = createCVIndexed(R[a[0]], a[1], s, a[2]); }
+		else if (c == 'H') { F = createCVBatch(R[a[0]], a[1]); }
+		else if (c == 'T') { DS t = F.training(a[1]); R[a[0]] = t; }
+		else if (c == 'U') { DS t = F.validation(a[1]); R[a[0]] = t; }
+		else if (c == 'D') { V = DataView<DS>(R[a[0]]); }
+		else if (c == 'E') { auto e = V[a[0]]; e.input = Enc<I>::make(a[1]); e.label = (unsigned)a[2]; }
+		else { o << " ?"; return; }
+		dumpAll(o);
+		if (c == 'G' || c == 'H') {
+			o << " folds=";
+			for (std::size_t p = 0; p != F.size(); ++p) {
+				if (p) o << ";";
+				auto const& ix = F.validationFoldIndices(p);
+				for (std::size_t i = 0; i != ix.size(); ++i) { if (i) o << ","; o << ix[i]; }
+			}
+		}
 	}
 };
 
